@@ -16,6 +16,8 @@ func Main(args []string) int {
 	switch args[0] {
 	case "smoke":
 		return smoke()
+	case "smoke4":
+		return smoke4()
 	case "check":
 		return cmdCheck(args[1:])
 	case "worker":
@@ -82,4 +84,50 @@ func countType(p *Peer, typ uint8) int {
 		}
 	}
 	return n
+}
+
+func smoke4() int {
+	ch := vsim.NewChoices(1)
+	r := NewRun("SMOKE", 1, "quick", ch)
+	defer r.Close()
+	r.Sim.KeepLog = true
+	r.Conf = DefaultUP4Conf()
+	p := r.AddPeer()
+	r.StartAgent()
+	r.Sim.RunFor(2 * time.Second)
+	fmt.Println("agent alive:", r.AgentAlive(), "writes:", r.W.P4.Writes, "invalid:", r.W.P4.Invalid)
+	as := p.Associate()
+	fmt.Println("assoc:", as != nil, p.Associated)
+	g := NewGen(r)
+	g.PlainQER = true
+	sess := g.Session(p, SessShape{NQER: 2, TEIDChoose: true})
+	res := p.Establish(sess)
+	fmt.Println("est:", res.Accepted, res.Cause)
+	for _, t := range r.W.P4.Info.Tables {
+		if n := len(r.W.P4.Tables[t.Preamble.Id]); n > 0 {
+			fmt.Println(" table", t.Preamble.Name, n)
+			for _, e := range r.W.P4.SortedEntries(t.Preamble.Name) {
+				fmt.Println("    ", e)
+			}
+		}
+	}
+	fmt.Println("meters:", r.W.P4.Meters, "invalid:", r.W.P4.Invalid)
+	dr := p.Delete(sess)
+	fmt.Println("del:", dr.Accepted)
+	for _, t := range r.W.P4.Info.Tables {
+		if n := len(r.W.P4.Tables[t.Preamble.Id]); n > 0 {
+			fmt.Println(" table", t.Preamble.Name, n)
+		}
+	}
+	fmt.Println("meters:", r.W.P4.Meters)
+	r.CheckNoPanics("SMOKE")
+	for _, v := range r.Violations {
+		fmt.Println("VIOLATION", v.Sig, v.Msg)
+	}
+	for _, l := range r.Sim.LogLines {
+		if len(l) > 0 && (len(l) < 160) {
+			fmt.Println("  ", l)
+		}
+	}
+	return 0
 }
